@@ -260,17 +260,27 @@ def sumSizes (cs : List Chunk) : Int := (cs.map (·.size)).foldl (· + ·) 0
 
 def detach (c : Chunk) : Chunk := { c with size := 0, data := none, detached := true }
 
-/-- `removeChunksNotUsedAfterUnlocked t` on bucket chunk ids `cids`; returns kept ids, chunks, freed bytes, removed count -/
-def removeUnused (t : Int) : List Nat → List Chunk → List Nat × List Chunk × Int × Nat
-  | [], cs => ([], cs, 0, 0)
-  | i :: is, cs =>
+/-- `removeChunksNotUsedAfterUnlocked t` on bucket chunk ids; returns kept ids, chunks, freed bytes, removed count.
+    The Go loop deletes a run `[i, j)` of unused chunks with `slices.Delete` and then continues at `i = j`
+    in the *shortened* slice, so the `j - i` chunks that followed the run are stepped over unexamined
+    (the first of them is the used chunk that ended the run). `skip` counts chunks still to step over,
+    `run` the length of the current run of unused chunks. -/
+def removeUnusedGo (t : Int) : (skip run : Nat) → List Nat → List Chunk → List Nat × List Chunk × Int × Nat
+  | _, _, [], cs => ([], cs, 0, 0)
+  | skip + 1, _, i :: is, cs =>
+    let r := removeUnusedGo t skip 0 is cs
+    (i :: r.1, r.2.1, r.2.2.1, r.2.2.2)
+  | 0, run, i :: is, cs =>
     let c := getChunk cs i
     if c.lastAccess < t then
-      let r := removeUnused t is (modAt detach i cs)
+      let r := removeUnusedGo t 0 (run + 1) is (modAt detach i cs)
       (r.1, r.2.1, r.2.2.1 + c.size, r.2.2.2 + 1)
     else
-      let r := removeUnused t is cs
+      let r := removeUnusedGo t (run - 1) 0 is cs
       (i :: r.1, r.2.1, r.2.2.1, r.2.2.2)
+
+def removeUnused (t : Int) (cids : List Nat) (cs : List Chunk) : List Nat × List Chunk × Int × Nat :=
+  removeUnusedGo t 0 0 cids cs
 
 def applyTrim (s : St) (freed : Int) (removed : Nat) : Info :=
   { s.info with size := s.info.size - freed, chunkLen := s.info.chunkLen - removed * s.cfg.K, chunks := s.info.chunks - removed }
